@@ -1,15 +1,208 @@
-(* Property C19 — rule chains decide each packet by first match and delays
-   are honoured in order.  Statements only; proofs in C19_proofs.v. *)
+(* Property C19 — rule chains decide each packet by first match; guard drop
+   uninstalls; loopback is never shown to rules; the fixture scheduler honours
+   Deliver(d): not early, within one tick, equal deadlines FIFO, Drop never
+   delivered.  Statements only; proofs in C19_proofs.v.  DESIGN.md section 5 (C19). *)
 From TV.Lib Require Import Base.
+From Coq Require Import Sorted.
 From TV.NetPure Require Import Ip Rules Sched Fixture C19_proofs.
 Open Scope N_scope.
+
+(* ---- the chain ------------------------------------------------------------ *)
 
 (* Net::evaluate returns the verdict of the first rule, in installation order,
    whose answer is not Pass; exactly the rules up to and including that one are
    invoked (each sees the packet once), the rules behind it are untouched; an
    empty or all-Pass chain gives Pass.  For arbitrary stateful rules. *)
 Theorem evaluate_first_match : forall (P : Type) (rs : list (N * rule P)) (p : P),
-  let '(rs', v, log) := eval_rules rs p in first_match P rs p rs' v log.
+  let '(rs', v, log) := eval_rules rs p in
+  (exists pre id r post,
+      rs = pre ++ (id, r) :: post /\ Forall (fun ir => answer (snd ir) p = Pass) pre /\
+      answer r p = v /\ v <> Pass /\
+      log = map fst pre ++ [id] /\
+      rs' = map (fun ir => (fst ir, touch (snd ir) p)) pre ++ (id, touch r p) :: post)
+  \/ (Forall (fun ir => answer (snd ir) p = Pass) rs /\ v = Pass /\ log = map fst rs /\
+      rs' = map (fun ir => (fst ir, touch (snd ir) p)) rs).
 Proof. exact eval_rules_first_match. Qed.
 
+(* uninstalling removes exactly that id; every other rule keeps its state and
+   the relative order of the others is unchanged (IndexMap::shift_remove) *)
+Theorem uninstall_preserves_order : forall (P : Type) (c : chain P) (id : N),
+  ids (uninstall c id) = filter (fun i => negb (i =? id)) (ids c) /\
+  ~ In id (ids (uninstall c id)) /\
+  (forall i r, i <> id -> (In (i, r) (c_rules (uninstall c id)) <-> In (i, r) (c_rules c))).
+Proof.
+  intros P c id. split; [apply uninstall_ids|]. split; [apply uninstall_removes|].
+  intros; now apply uninstall_keeps_rule.
+Qed.
+
+(* after any history of installs, guard drops, forgets and evaluations the
+   chain is in installation order (rule ids strictly increasing) *)
+Theorem chain_in_installation_order : forall (P : Type) (es : list (cev P)),
+  StronglySorted N.lt (ids (fst (crun chain0 es))).
+Proof. exact installation_order_lemma. Qed.
+
+(* the moment a live guard is dropped its rule stops applying: no later
+   evaluation, whatever is installed or removed afterwards, invokes it *)
+Theorem removed_never_consulted : forall (P : Type) (es1 : list (cev P)) (id : N) (es2 : list (cev P)),
+  let c1 := fst (crun chain0 es1) in
+  has_guard c1 id = true ->
+  ~ In id (flat_map fst (snd (crun c1 (CDropGuard id :: es2)))).
+Proof. exact removed_never_consulted_lemma. Qed.
+
+(* a forgotten guard leaves its rule installed for good; so does Net::rule *)
+Theorem forgotten_guard_stays : forall (P : Type) (es1 : list (cev P)) (id : N) (es2 : list (cev P)),
+  let c1 := fst (crun chain0 es1) in
+  In id (ids c1) ->
+  In id (ids (fst (crun c1 (CForget id :: es2)))).
+Proof. exact forgotten_guard_stays_lemma. Qed.
+
+Theorem permanent_rule_stays : forall (P : Type) (es1 : list (cev P)) b (es2 : list (cev P)),
+  let c1 := fst (crun chain0 es1) in
+  In (c_next c1) (ids (fst (crun c1 (CInstall false b :: es2)))).
+Proof. exact permanent_rule_stays_lemma. Qed.
+
+(* ---- the scheduler ---------------------------------------------------------- *)
+(* `ticks` is any sequence of Scheduler::tick calls: (dt, the packets drained by
+   egress_all with the verdicts evaluate returned).  emissions 0 ticks lists
+   every packet with the scheduler time at which it left its host. *)
+
+(* in every reachable state pending is sorted by (deliver_at, seq), holds only
+   future deadlines and distinct sequence numbers below next_seq *)
+Theorem pending_sorted : forall (P : Type) (ticks : list (N * list (P * verdict))),
+  let s := fst (srun sched0 ticks) in
+  StronglySorted (fun a b => key_leb a b = true) (s_pending s) /\
+  Forall (fun e => s_now s < e_at e /\ e_seq e < s_next s) (s_pending s) /\
+  NoDup (map e_seq (s_pending s)).
+Proof. exact pending_sorted_lemma. Qed.
+
+(* refinement: what the scheduler hands to the fabric, tick by tick, is the
+   declarative schedule: the delayed packets whose deadline t+d lies in
+   (previous tick, this tick], in (deadline, emission rank) order, followed by
+   the Pass / Deliver(0) packets of this tick in egress order *)
+Theorem scheduler_refines_spec : forall (P : Type) (ticks : list (N * list (P * verdict))),
+  snd (srun sched0 ticks) = spec_outs P 0 [] ticks.
+Proof. exact tick_spec_lemma. Qed.
+
+(* a packet handed out as due was emitted at some time t <= previous tick with
+   Deliver(d), d > 0, and is not early: t + d <= time of this tick *)
+Theorem deliver_not_early : forall (P : Type) (ticks : list (N * list (P * verdict))) o p,
+  In o (snd (srun sched0 ticks)) -> In p (o_due o) ->
+  exists t d, In (t, p, Deliver d) (emissions 0 ticks) /\ 0 < d /\ t <= o_from o /\ t + d <= o_at o.
+Proof.
+  intros P ticks o p Ho Hp. destruct (outs_due_window P ticks o p Ho Hp) as (t & d & H1 & H2 & H3 & H4 & H5).
+  exists t, d. auto.
+Qed.
+
+(* ... and within one tick: the previous tick was still before the deadline,
+   so with ticks of width dt it leaves at the unique tick time in [t+d, t+d+dt) *)
+Theorem deliver_within_tick : forall (P : Type) (ticks : list (N * list (P * verdict))) o p,
+  In o (snd (srun sched0 ticks)) -> In p (o_due o) ->
+  exists t d, In (t, p, Deliver d) (emissions 0 ticks) /\ 0 < d /\ o_from o < t + d /\ t + d <= o_at o.
+Proof.
+  intros P ticks o p Ho Hp. destruct (outs_due_window P ticks o p Ho Hp) as (t & d & H1 & H2 & H3 & H4 & H5).
+  exists t, d. auto.
+Qed.
+
+(* conversely every Deliver(d) packet is handed out by the tick whose window
+   (o_from, o_at] contains its deadline *)
+Theorem deliver_when_due : forall (P : Type) (ticks : list (N * list (P * verdict))) o t p d,
+  In o (snd (srun sched0 ticks)) ->
+  In (t, p, Deliver d) (emissions 0 ticks) -> 0 < d ->
+  o_from o < t + d -> t + d <= o_at o ->
+  In p (o_due o).
+Proof. exact outs_due_complete. Qed.
+
+(* two delayed packets due in the same tick leave in deadline order and, for
+   equal deadlines, in emission order (i1 < i2 are their ranks among the
+   delayed packets of the run) *)
+Theorem equal_deadline_fifo : forall (P : Type) (ticks : list (N * list (P * verdict))) o i1 i2 e1 e2,
+  In o (snd (srun sched0 ticks)) ->
+  let D := delayed 0 (emissions 0 ticks) in
+  nth_error D i1 = Some e1 -> nth_error D i2 = Some e2 ->
+  (e_at e1 < e_at e2 \/ (e_at e1 = e_at e2 /\ (i1 < i2)%nat)) ->
+  o_from o < e_at e1 -> e_at e2 <= o_at o ->
+  exists a b c, o_due o = a ++ e_pkt e1 :: b ++ e_pkt e2 :: c.
+Proof. exact due_fifo_lemma. Qed.
+
+(* a dropped packet is in no tick's output (packet ids unique) *)
+Theorem drop_never_delivered : forall (P : Type) (ticks : list (N * list (P * verdict))) t p,
+  NoDup (map (fun x => snd (fst x)) (emissions 0 ticks)) ->
+  In (t, p, Drop) (emissions 0 ticks) ->
+  forall o, In o (snd (srun sched0 ticks)) -> ~ In p (o_all o).
+Proof. exact outs_drop_never. Qed.
+
+(* Pass and Deliver(0) packets leave in the very tick that drained them, in
+   egress order, after the due packets; tick k runs at the sum of the first k dt *)
+Theorem zero_delay_immediate : forall (P : Type) (ticks : list (N * list (P * verdict))),
+  map o_imm (snd (srun sched0 ticks)) = map (fun tk => immediate (snd tk)) ticks /\
+  map (fun o => (o_from o, o_at o)) (snd (srun sched0 ticks)) = tick_times P 0 ticks.
+Proof. intros P ticks. split; [apply outs_imm|apply outs_times]. Qed.
+
+(* ---- the kernel ---------------------------------------------------------------- *)
+
+(* Kernel::egress never appends a packet with a local destination to `out`,
+   whatever deliver and segmentation do and however many passes the loop makes;
+   loopback addresses are local on every host *)
+Theorem loopback_not_in_out : forall (S : Type) segment handle fuel addrs (st : S) outbound,
+  let '(_, _, out) := kegress S segment handle fuel addrs st outbound in
+  Forall (fun p => is_local addrs (p_dst p) = false /\ is_loopback (p_dst p) = false) out.
+Proof.
+  intros S segment handle fuel addrs st ob.
+  pose proof (loopback_not_in_out_lemma S segment handle fuel addrs st ob) as H.
+  destruct (kegress S segment handle fuel addrs st ob) as [[a b] out].
+  eapply Forall_impl; [|exact H]. cbn. intros p Hp. split; [exact Hp|].
+  destruct (is_loopback (p_dst p)) eqn:E; [|reflexivity].
+  rewrite (is_local_loopback addrs _ E) in Hp. discriminate.
+Qed.
+
+(* one fixture tick shows the rules exactly the packets egress_all handed out,
+   and none of those has a destination local to the host that sent it *)
+Theorem rules_see_only_egress : forall (f : fixt) dt,
+  let out := snd (egress_all (f_hosts f)) in
+  let '(_, _, _, _, _, evals) := snd (fstep f (FTick dt)) in
+  map (fun x => fst (fst (fst x))) evals = map p_id out /\
+  Forall (fun p => exists h, In h (f_hosts f) /\ In p (h_out h) /\ is_local (h_addrs h) (p_dst p) = false) out.
+Proof. exact tick_shows_only_egress_lemma. Qed.
+
+(* ---- non-vacuity ------------------------------------------------------------------ *)
+(* a chain [Pass; by-tag Deliver; Drop] and a run with equal and crossing
+   deadlines: packet 1 (Deliver 3 at t=1) and packet 3 (Deliver 2 at t=2) share
+   deadline 4 and leave in emission order; packet 2 (Deliver 1 at t=2) crosses
+   and leaves first; packet 4 (Drop) never; packet 5 (Pass) at once. *)
+Definition ex_rules : list (N * rule N) :=
+  [(1, mkrule (fun _ _ => Pass) []);
+   (2, mkrule (fun _ p => if p =? 7 then Deliver 5 else Pass) []);
+   (3, mkrule (fun _ _ => Drop) [])].
+Definition ex_ticks : list (N * list (N * verdict)) :=
+  [(1, [(1, Deliver 3)]); (1, [(2, Deliver 1); (3, Deliver 2); (4, Drop); (5, Pass)]); (1, []); (1, [])].
+
+Example c19_nonvacuous :
+  snd (eval_rules ex_rules 7) = [1; 2] /\ snd (fst (eval_rules ex_rules 7)) = Deliver 5 /\
+  snd (eval_rules ex_rules 8) = [1; 2; 3] /\ snd (fst (eval_rules ex_rules 8)) = Drop /\
+  map (fun o => (o_at o, o_all o)) (snd (srun sched0 ex_ticks)) = [(1, []); (2, [5]); (3, [2]); (4, [1; 3])] /\
+  has_guard (fst (crun chain0 [CInstall true (fun _ (_ : N) => Drop)])) 1 = true /\
+  NoDup (map (fun x => snd (fst x)) (emissions 0 ex_ticks)).
+Proof. vm_compute. repeat split; repeat constructor; cbn; intuition discriminate. Qed.
+
+Check evaluate_first_match.
+Check deliver_within_tick : forall (P : Type) (ticks : list (N * list (P * verdict))) o p,
+  In o (snd (srun sched0 ticks)) -> In p (o_due o) ->
+  exists t d, In (t, p, Deliver d) (emissions 0 ticks) /\ 0 < d /\ o_from o < t + d /\ t + d <= o_at o.
+
 Print Assumptions evaluate_first_match.
+Print Assumptions uninstall_preserves_order.
+Print Assumptions chain_in_installation_order.
+Print Assumptions removed_never_consulted.
+Print Assumptions forgotten_guard_stays.
+Print Assumptions permanent_rule_stays.
+Print Assumptions pending_sorted.
+Print Assumptions scheduler_refines_spec.
+Print Assumptions deliver_not_early.
+Print Assumptions deliver_within_tick.
+Print Assumptions deliver_when_due.
+Print Assumptions equal_deadline_fifo.
+Print Assumptions drop_never_delivered.
+Print Assumptions zero_delay_immediate.
+Print Assumptions loopback_not_in_out.
+Print Assumptions rules_see_only_egress.
+Print Assumptions c19_nonvacuous.
